@@ -21,11 +21,11 @@ type PExpr struct {
 	Kids []*PExpr `json:"c,omitempty"`
 }
 
-func PP(pred string) *PExpr  { return &PExpr{Kind: "pred", Pred: pred} }
-func PI(pred string) *PExpr  { return &PExpr{Kind: "pred", Pred: pred, Inv: true} }
-func PT() *PExpr             { return &PExpr{Kind: "type"} }
-func PS(k ...*PExpr) *PExpr  { return &PExpr{Kind: "seq", Kids: k} }
-func PA(k ...*PExpr) *PExpr  { return &PExpr{Kind: "alt", Kids: k} }
+func PP(pred string) *PExpr { return &PExpr{Kind: "pred", Pred: pred} }
+func PI(pred string) *PExpr { return &PExpr{Kind: "pred", Pred: pred, Inv: true} }
+func PT() *PExpr            { return &PExpr{Kind: "type"} }
+func PS(k ...*PExpr) *PExpr { return &PExpr{Kind: "seq", Kids: k} }
+func PA(k ...*PExpr) *PExpr { return &PExpr{Kind: "alt", Kids: k} }
 func (p *PExpr) Leaves() int {
 	if len(p.Kids) == 0 {
 		return 1
